@@ -21,7 +21,7 @@ def main():
             continue
         req = json.loads(line)
         try:
-            uw.restore_stubs()
+            uw.reset_between_paths()
             try:
                 uw._canvas.CanvasCache.clear()
             except Exception:  # noqa: BLE001
